@@ -40,7 +40,7 @@ def unblock_entry(prog, with_size=True):
 
 def buffer_at_exit(p):
     """The buffer value when the refill loop was left (generalised loop-head value, or entry value)."""
-    heads = [e for e in p.events if e.kind == 'loop-head' and e.func == READ]
+    heads = [e for e in p.events if e.kind == 'loop-head' and e.under(READ)]
     if heads:
         g = heads[-1].data['gen'].get(('attr', 'buffer'))
         if g is not None:
@@ -48,7 +48,7 @@ def buffer_at_exit(p):
     # unrolled run: last assignment to buffer before the final slices
     val = p.interp.user['buf0']
     for e in p.events:
-        if e.kind == 'setattr' and e.data['attr'] == 'buffer' and e.func == READ and e.data.get('aug'):
+        if e.kind == 'setattr' and e.data['attr'] == 'buffer' and e.under(READ) and e.data.get('aug'):
             val = e.data['value']
     return val
 
@@ -120,7 +120,7 @@ def check(prog, res, tier):
     def chk_b(p, mode):
         if p.outcome != 'return':
             return []
-        exits = [e for e in p.events if e.kind == 'loop-exit' and e.func == READ]
+        exits = [e for e in p.events if e.kind == 'loop-exit' and e.under(READ)]
         if mode == 'inv' and exits and exits[-1].data['how'] == 'cond':
             g = buffer_at_exit(p)
             n = p.interp.user['n']
